@@ -126,7 +126,7 @@ func c11Gen(n int, kinds []*c11Kind, memo map[int][]*c11Node) []*c11Node {
 	return out
 }
 
-var c11Leaves = []string{"1", "'a'", "%v", "true", "name", "2.5", "Patient", "$this", "{}", "1 'mg'", "@2020-01-01", "exists()", "2147483648", "0"}
+var c11Leaves = []string{"1", "'a'", "%v", "true", "name", "2.5", "Patient", "$this", "{}", "1 'mg'", "@2020-01-01", "exists()", "2147483648", "0", "%ext", "id", "%vsn"}
 
 // render returns the token list of the tree. full=true parenthesises every
 // non-leaf sub-expression; full=false uses the fewest parentheses the
@@ -331,7 +331,7 @@ func c11Compile(r *core.Rec, src string, eval bool) c11Out {
 	o.str = res.Expr.String()
 	if eval {
 		for _, in := range [][]fhir.Resource{{lib.Patient()}, nil} {
-			ev := lib.EvalOpts(res, in, lib.EnvOpts(map[string]any{"v": system.Integer(3)})...)
+			ev := lib.EvalOpts(res, in, lib.EnvOpts(map[string]any{"v": system.Integer(3), "ext": system.Integer(10), "vsn": system.Integer(4)})...)
 			r.Eval()
 			if ev.Panic != nil {
 				o.pan = ev.Panic
@@ -423,7 +423,7 @@ func init() {
 	eofDecorations := []struct{ name, s string }{{"line-comment-at-eof", "// c"}, {"empty-line-comment-at-eof", "//"}, {"line-comment-cr-at-eof", "// c\r"}, {"line-comment-brackets-at-eof", " // )"}}
 	core.Register(&core.Check{
 		ID:          "C11",
-		Rule:        "all expression trees with <=3 operator nodes over 22 binary operator tokens (all 13 precedence levels), polarity, invocation, indexer, is/as, function-argument and parenthesised positions (quick; thorough adds all trees with 4 operator nodes over one representative per level); leaves rotate through 14 leaf terms (incl. the out-of-range number 2147483648), trees with <=2 nodes with every rotation; each tree is rendered minimally parenthesised (harness's own precedence table), fully parenthesised, and fully parenthesised including the leaf terms: both compile or both fail, identical AST dumps, identical evaluation on 2 inputs; all trees with <=2 nodes x 6 token-gap decorations applied to all gaps and to each single gap; x 52 trailing tokens; Expression.String(); deep nesting (8 constructs x depth 1..12 / 1..30 with 0, 1, 2, 4 redundant pairs of parentheses around every sub-expression: same acceptance and evaluation); an operand-order table evaluated against hand-written results; non-trivial = distinct (tree, rendering, outcome)",
+		Rule:        "all expression trees with <=3 operator nodes over 22 binary operator tokens (all 13 precedence levels), polarity, invocation, indexer, is/as, function-argument and parenthesised positions (quick; thorough adds all trees with 4 operator nodes over one representative per level); leaves rotate through 17 leaf terms (incl. the out-of-range number 2147483648), trees with <=2 nodes with every rotation; each tree is rendered minimally parenthesised (harness's own precedence table), fully parenthesised, and fully parenthesised including the leaf terms: both compile or both fail, identical AST dumps, identical evaluation on 2 inputs; all trees with <=2 nodes x 6 token-gap decorations applied to all gaps and to each single gap; x 52 trailing tokens; Expression.String(); deep nesting (8 constructs x depth 1..12 / 1..30 with 0, 1, 2, 4 redundant pairs of parentheses around every sub-expression: same acceptance and evaluation); an operand-order table evaluated against hand-written results; non-trivial = distinct (tree, rendering, outcome)",
 		Assumptions: []string{"the precedence table (13 levels, left associative) in checks/c11.go was transcribed from the FHIRPath N1 grammar", "AST equality is judged on the reflective dump of the private expression tree including implementation function names"},
 		Subs: func(tier string) []core.Sub {
 			tr := c11Build(tier)
@@ -503,10 +503,10 @@ func init() {
 						one(off)
 					}
 				}},
-				{Name: "decorations", N: len(tr.small), Note: "trees with <=2 operator nodes x 3 leaf assignments x 12 decorations (white space, comments, comments whose text holds brackets, quotes and comment openers) x (all gaps | each single gap | before the first / after the last token) + 4 comments that end with the source", Run: func(i int, r *core.Rec) {
+				{Name: "decorations", N: len(tr.small), Note: "trees with <=2 operator nodes x 4 leaf assignments x 12 decorations (white space, comments, comments whose text holds brackets, quotes and comment openers) x (all gaps | each single gap | before the first / after the last token) + 4 comments that end with the source", Run: func(i int, r *core.Rec) {
 					t := tr.small[i]
-					// three leaf assignments: starting at the literal 1, at the element name, at the resource type name
-					for _, off := range []int{0, 4, 6} {
+					// four leaf assignments: starting at the literal 1, at the element name, at the resource type name, at an external constant followed by an element name
+					for _, off := range []int{0, 4, 6, 14} {
 						off := off
 						func() {
 							a := off
